@@ -7,6 +7,7 @@ import importlib
 import json
 import multiprocessing as mp
 import os
+import signal
 import subprocess
 import sys
 import time
@@ -246,8 +247,20 @@ def _job(args):
         pdcore.TIE_MODE["mode"] = sk.get("params", {}).get("tie_mode", base_mode)
         TG.reset_registry()
         ctx = SymCtx(sk, ex_, mods)
-        h.run(ctx)
-        ctx.flush()
+        # watchdog: a path that does not end (a changed tree may loop forever) becomes a raised path instead of a hung
+        # check; the limit is far above the slowest legitimate path (long-trace families: ~40 s)
+        limit = int(os.environ.get("VERIF_PATH_TIMEOUT", "150"))
+
+        def _alarm(signum, frame):
+            raise PathTimeout(f"path did not finish within {limit} s")
+        old = signal.signal(signal.SIGALRM, _alarm)
+        signal.alarm(limit)
+        try:
+            h.run(ctx)
+            ctx.flush()
+        finally:
+            signal.alarm(0)
+            signal.signal(signal.SIGALRM, old)
 
     out["witnesses"] = []
     every = {"n": 0}
@@ -302,6 +315,10 @@ def _job(args):
 # ---------------------------------------------------------------------------
 # native replay (fresh interpreter, real pandas)
 # ---------------------------------------------------------------------------
+
+class PathTimeout(Exception):
+    """a symbolic path exceeded the watchdog limit (non-termination in the code under test)"""
+
 
 def replay_native(hname, sk, model, outdir, timeout=600):
     os.makedirs(outdir, exist_ok=True)
@@ -423,8 +440,9 @@ def run_check(hname, tier, jobs=None, budget_s=None):
                     pool.shutdown(wait=False, cancel_futures=True)
                     return _finish_error(pid, tier, seed, t0, "nothing decided in the first 300 paths")
                 rest = out["leftover"]
+                watchdog = any("PathTimeout" in (r.get("error") or "") for r in out["raised"])
                 if rest:
-                    if time.time() < deadline:
+                    if time.time() < deadline and not watchdog:
                         # split the leftover prefixes into up to 4 new jobs
                         k = max(1, min(4, len(rest)))
                         for part in range(k):
@@ -448,19 +466,25 @@ def run_check(hname, tier, jobs=None, budget_s=None):
             continue
         sk = sks[c["sk"]]
         key = h.signature(c["label"], sk, c.get("detail")) if hasattr(h, "signature") else c["label"]
-        if tried.get(key, 0) >= max_per_label:
+        # a few per label, and beyond that one per not-yet-tried skeleton (a changed tree may keep module-level state
+        # that leaks between the paths of a worker process and floods a label with counterexamples that do not
+        # reproduce in a fresh interpreter: the reproducing one must still get its turn)
+        if tried.get(key, 0) >= max_per_label and (tried.get((key, sk.get("id")), 0) >= 1 or tried.get(key, 0) >= 30):
             continue
+        tried[(key, sk.get("id"))] = tried.get((key, sk.get("id")), 0) + 1
         if any(v["signature"] == key for v in violations) and tried.get(key, 0) >= 1:
             continue
         tried[key] = tried.get(key, 0) + 1
         tag = hashlib.sha256(json.dumps([sk.get("id"), c["label"], c["model"]], sort_keys=True, default=repr)
                              .encode()).hexdigest()[:12]
         outdir = os.path.join(REPLAYS, pid, tag)
-        res = replay_native(hname, sk, c["model"], outdir)
+        res = replay_native(hname, sk, c["model"], outdir, timeout=150 if c["label"] == "raised:PathTimeout" else 600)
         fails = res.get("failures", []) if res.get("status") == "ok" else []
         labels = {f["label"] for f in fails}
         reproduced = c["label"] in labels or (c["label"].startswith("raised:") and any(
             l.startswith("raised:") for l in labels))
+        if c["label"] == "raised:PathTimeout" and res.get("status") == "timeout":
+            reproduced, fails = True, [{"label": "raised:PathTimeout", "detail": "native run did not finish either"}]
         if res.get("assume_failed"):
             reproduced = False
         if not reproduced and getattr(h, "REPLICABLE", False) and res.get("status") == "ok":
